@@ -1,10 +1,25 @@
 //! C17: parsers are total. E1 with deviation-bounded mutation: every parser
 //! entry point is fed (a) all short byte strings over a grammar alphabet,
-//! (b) all 0/1/2-deviation mutations of a seed corpus, (c) digit-run and
-//! repetition blow-ups, (d) strptime format-string products, (e) mutated TZif
-//! and concatenated-tzdata files. Oracle: terminates, no panic, work
+//! (a') anchored tails: a valid prefix + all short strings + a suffix, which
+//! reaches the grammar behind the prefix (offsets, annotations, comments,
+//! zones, unit designators) that plain short strings never get to,
+//! (b) all 0/1/2-deviation mutations of a seed corpus (one seed per grammar
+//! production), (c) digit-run and repetition blow-ups (repeat counts on both
+//! sides of every buffer capacity and counter width, at several grammar
+//! positions), (c') every digit field of every seed replaced by values on
+//! both sides of every integer / range limit, (d) strptime format-string
+//! products incl. every directive x flag x width x digit string, (d') strftime
+//! with arbitrary formats on boundary values, (e) mutated TZif and
+//! concatenated-tzdata files. Oracle: terminates, no panic, work
 //! proportional to the input, Ok values are sane (in range, print and re-parse
-//! to an equal value), accepted zones answer every lookup.
+//! to an equal value), accepted zones answer every lookup; entry points that
+//! are documented as equivalent (FromStr vs the default parser, strptime
+//! wrappers and parse_prefix vs strtime::parse, relaxed vs strict RFC 2822,
+//! the strftime family) agree.
+//!
+//! Table rows are `Full` (everything) or `Light` (thin wrappers, option
+//! combinations, second alphabets: 1-deviation mutations, anchored tails,
+//! field values and small blow-ups only); see `c17/text.rs`.
 //!
 //! Untrusted binary data and the 1 MB inputs are processed in worker child
 //! processes (this same binary re-executed with `--c17-worker`), so that an
@@ -198,8 +213,12 @@ fn sec_short(r: &Report, ps: &[Parser]) {
         set_section("short");
         // strings of length <= L over the parser's alphabet
         for (pi, p) in ps.iter().enumerate() {
+            if p.level != text::Level::Full {
+                continue;
+            }
             let a = p.alpha;
-            let l = if r.quick() { 5 } else { 6 };
+            let l = if r.quick() { p.short_len.0 } else { p.short_len.1 };
+            r.count(&format!("short:L={}:rows", l), 1);
             // tasks: every prefix of length <= 2, each extended by all suffixes
             // of length <= L-2 (prefixes shorter than 2 are not extended)
             let mut tasks: Vec<Vec<u8>> = vec![vec![]];
@@ -332,6 +351,9 @@ fn sec_mutate2(r: &Report, ps: &[Parser]) {
         set_section("mutate2");
         let mut work: Vec<(usize, usize, Edit)> = vec![];
         for (pi, p) in ps.iter().enumerate() {
+            if p.level != text::Level::Full {
+                continue;
+            }
             let mut order: Vec<usize> = (0..p.seeds.len()).collect();
             order.sort_by_key(|&i| (p.seeds[i].len(), i));
             if r.quick() {
@@ -354,6 +376,155 @@ fn sec_mutate2(r: &Report, ps: &[Parser]) {
                 run_text(r, "mutate2", pi, p, &buf, &mut t);
             }
             flush_tally(r, "mutate2", p, &t);
+        });
+    });
+}
+
+// ---------------------------------------------------------------------------
+// (a') anchored tails: prefix + every short string + suffix
+// ---------------------------------------------------------------------------
+
+fn sec_anchored(r: &Report, ps: &[Parser]) {
+    r.section("anchored", || {
+        set_section("anchored");
+        let quick = r.quick();
+        // tasks: (row, anchor, first tail byte or none)
+        let mut tasks: Vec<(usize, usize, Option<u8>)> = vec![];
+        for (pi, p) in ps.iter().enumerate() {
+            for (ai, a) in p.anchors.iter().enumerate() {
+                tasks.push((pi, ai, None));
+                for &x in a.alpha {
+                    tasks.push((pi, ai, Some(x)));
+                }
+                r.count("anchored:anchors", 1);
+            }
+        }
+        tasks.par_iter().for_each(|&(pi, ai, first)| {
+            let p = &ps[pi];
+            let a = &p.anchors[ai];
+            let l = if quick { a.len.0 } else { a.len.1 };
+            let mut t = Tally::default();
+            let mut buf: Vec<u8> = a.prefix.to_vec();
+            let base = buf.len();
+            match first {
+                None => {
+                    buf.extend_from_slice(a.suffix);
+                    run_text(r, "anchored", pi, p, &buf, &mut t);
+                }
+                Some(x) => {
+                    // tails of length 1..=l starting with x
+                    for tl in 1..=l {
+                        let rest = tl - 1;
+                        let total = a.alpha.len().pow(rest as u32);
+                        buf.truncate(base);
+                        buf.push(x);
+                        buf.resize(base + tl, a.alpha[0]);
+                        buf.extend_from_slice(a.suffix);
+                        for c in 0..total {
+                            let mut y = c;
+                            for k in 0..rest {
+                                buf[base + 1 + k] = a.alpha[y % a.alpha.len()];
+                                y /= a.alpha.len();
+                            }
+                            run_text(r, "anchored", pi, p, &buf, &mut t);
+                            // the same input cut off right after the tail
+                            if !a.suffix.is_empty() {
+                                run_text(r, "anchored", pi, p, &buf[..base + tl], &mut t);
+                            }
+                        }
+                    }
+                }
+            }
+            flush_tally(r, "anchored", p, &t);
+            r.count(&format!("anchored:{}:#{}:ok", p.name, ai), t.ok + t.bad);
+        });
+        // every anchor must reach accepting states (else it enumerates nothing
+        // the short strings do not)
+        for p in ps {
+            for ai in 0..p.anchors.len() {
+                let k = format!("anchored:{}:#{}:ok", p.name, ai);
+                r.require(r.get_count(&k) > 0, &format!("anchor #{} of {} reaches accepted inputs", ai, p.name));
+            }
+        }
+    });
+}
+
+// ---------------------------------------------------------------------------
+// (c') field values: every digit field of every seed replaced by values on
+// both sides of every limit an accumulator, a counter or a range might have
+// ---------------------------------------------------------------------------
+
+const FIELD_VALUES: &[&str] = &[
+    "0", "00", "1", "7", "8", "9", "10", "12", "13", "23", "24", "25", "26", "28", "29", "30", "31", "32", "49", "50", "53", "54", "59", "60", "61", "68", "69", "99", "100", "127", "128", "255", "256", "365", "366", "367", "999", "1000", "9999", "10000", "32767", "32768", "65535", "65536", "99999", "999999", "93599", "93600", "2147483647", "2147483648",
+    "4294967295", "4294967296", "999999999", "1000000000", "9223372036854775807", "9223372036854775808", "18446744073709551615", "18446744073709551616",
+    // Span unit limits and the first value past them
+    "19998", "19999", "239976", "239977", "1043497", "1043498", "7304484", "7304485", "175307616", "175307617", "10518456960", "10518456961", "631107417600", "631107417601", "631107417600000", "631107417600001", "631107417600000000", "631107417600000001",
+    // SignedDuration limits in hours / minutes, Timestamp limits in seconds
+    "2562047788015215", "2562047788015216", "153722867280912930", "153722867280912931", "253402207200", "253402207201", "377705023201", "377705023202",
+];
+const FIELD_VALUES_PAIR: &[&str] = &["0", "9", "60", "99", "9999", "175307617", "631107417601", "9223372036854775807", "9223372036854775808", "00000000000000000001"];
+
+fn sec_fieldvals(r: &Report, ps: &[Parser]) {
+    r.section("fieldvals", || {
+        set_section("fieldvals");
+        let mut work: Vec<(usize, usize)> = vec![];
+        for (pi, p) in ps.iter().enumerate() {
+            for si in 0..p.seeds.len() {
+                work.push((pi, si));
+            }
+        }
+        let pairs = r.thorough();
+        work.par_iter().for_each(|&(pi, si)| {
+            let p = &ps[pi];
+            let seed = p.seeds[si];
+            let fields = digit_fields(seed);
+            let mut t = Tally::default();
+            let mut buf: Vec<u8> = vec![];
+            let subst = |buf: &mut Vec<u8>, reps: &[(usize, &str, bool)]| {
+                // reps: (field index, value, pad to the field's own width), ascending
+                buf.clear();
+                let mut at = 0;
+                for &(fi, v, pad) in reps {
+                    let (a, e) = fields[fi];
+                    buf.extend_from_slice(&seed[at..a]);
+                    if pad {
+                        for _ in v.len()..(e - a) {
+                            buf.push(b'0');
+                        }
+                    }
+                    buf.extend_from_slice(v.as_bytes());
+                    at = e;
+                }
+                buf.extend_from_slice(&seed[at..]);
+            };
+            for fi in 0..fields.len() {
+                let w = fields[fi].1 - fields[fi].0;
+                for v in FIELD_VALUES {
+                    subst(&mut buf, &[(fi, v, false)]);
+                    run_text(r, "fieldvals", pi, p, &buf, &mut t);
+                    if v.len() < w {
+                        subst(&mut buf, &[(fi, v, true)]);
+                        run_text(r, "fieldvals", pi, p, &buf, &mut t);
+                    }
+                }
+            }
+            // two fields at once: adjacent fields (quick), all pairs (thorough)
+            if p.level == text::Level::Full {
+                for f1 in 0..fields.len() {
+                    for f2 in f1 + 1..fields.len() {
+                        if !pairs && f2 != f1 + 1 {
+                            continue;
+                        }
+                        for v1 in FIELD_VALUES_PAIR {
+                            for v2 in FIELD_VALUES_PAIR {
+                                subst(&mut buf, &[(f1, v1, true), (f2, v2, true)]);
+                                run_text(r, "fieldvals", pi, p, &buf, &mut t);
+                            }
+                        }
+                    }
+                }
+            }
+            flush_tally(r, "fieldvals", p, &t);
         });
     });
 }
@@ -445,6 +616,10 @@ fn directives() -> Vec<(&'static [u8], Vec<&'static [u8]>)> {
         (b":", vec![b":"]),
         (b"T", vec![b"T", b"t"]),
         (b"\xFF", vec![b"\xFF"]),
+        // multi-byte literals: well-formed and cut short
+        (b"\xC3\xA9", vec![b"\xC3\xA9"]),
+        (b"\xE6\x97\xA5", vec![b"\xE6\x97\xA5"]),
+        (b"\xE6\x97", vec![b"\xE6\x97"]),
     ];
     d
 }
@@ -511,19 +686,113 @@ fn chk_bdt(tm: &jiff::fmt::strtime::BrokenDownTime, fmt: &[u8]) -> Option<(Strin
 }
 
 const STRP: usize = 1000; // index of "strtime::parse" in NAMES
+const STRF: usize = 1001; // index of "strtime::format" in NAMES
+
+/// Input class of the `%C` defect: the format holds a `%C` directive with a
+/// flag other than `-`/`_` and a width of 18 or more (so that a century of 18+
+/// digits is read), and the input holds a run of at least 17 digits.
+fn century_class(fmt: &[u8], input: &[u8]) -> &'static str {
+    let mut wide_c = false;
+    let mut i = 0;
+    while i < fmt.len() {
+        if fmt[i] == b'%' && i + 1 < fmt.len() {
+            let mut j = i + 1;
+            let flag = fmt[j];
+            if matches!(flag, b'0' | b'^' | b'#') {
+                j += 1;
+                let st = j;
+                while j < fmt.len() && fmt[j].is_ascii_digit() {
+                    j += 1;
+                }
+                let w: u32 = std::str::from_utf8(&fmt[st..j]).ok().and_then(|x| x.parse().ok()).unwrap_or(0);
+                if j < fmt.len() && fmt[j] == b'C' && w >= 18 {
+                    wide_c = true;
+                }
+            }
+            i = j.max(i + 2);
+        } else {
+            i += 1;
+        }
+    }
+    let long_run = digit_fields(input).iter().any(|&(a, e)| e - a >= 17);
+    if wide_c && long_run {
+        ":[%C,width>=18,17+digits]"
+    } else {
+        ""
+    }
+}
+
+/// The other strptime entry points, compared with `strtime::parse` (documented
+/// equivalences): `BrokenDownTime::parse_prefix` consumes a prefix and reports
+/// its length; `T::strptime(f, i)` is `parse(f, i)?.to_T()`.
+fn strp_others(fmt: &[u8], input: &[u8], full: &Result<jiff::fmt::strtime::BrokenDownTime, jiff::Error>) -> Option<(String, String)> {
+    use jiff::fmt::strtime::BrokenDownTime;
+    let pre = BrokenDownTime::parse_prefix(fmt, input);
+    match (&pre, full) {
+        (Err(_), Ok(_)) => return Some(("BrokenDownTime::parse_prefix/rejects-what-parse-accepts".into(), format!("{:?}", pre.as_ref().err().map(|e| e.to_string())))),
+        (Ok((tm, n)), _) => {
+            if *n > input.len() {
+                return Some(("BrokenDownTime::parse_prefix/consumed>len".into(), format!("consumed {} of {} bytes", n, input.len())));
+            }
+            match full {
+                Ok(f) => {
+                    if *n != input.len() || format!("{:?}", tm) != format!("{:?}", f) {
+                        return Some(("BrokenDownTime::parse_prefix/differs-from-parse".into(), format!("consumed {} of {}; prefix {:?} vs parse {:?}", n, input.len(), tm, f)));
+                    }
+                }
+                Err(_) => {
+                    if *n == input.len() {
+                        return Some(("BrokenDownTime::parse_prefix/accepts-whole-input-parse-rejects".into(), format!("{:?}", tm)));
+                    }
+                }
+            }
+        }
+        (Err(_), Err(_)) => {}
+    }
+    let (f, i) = (fmt, input);
+    macro_rules! same {
+        ($ty:ty, $conv:ident, $name:expr) => {{
+            let a = <$ty>::strptime(f, i);
+            let b = full.as_ref().ok().and_then(|tm| tm.$conv().ok());
+            match (&a, &b) {
+                (Err(_), None) => {}
+                (Ok(x), Some(y)) if x == y => {}
+                _ => return Some((format!("{}::strptime/differs-from-parse+{}", $name, stringify!($conv)), format!("strptime {:?} vs {:?}", a.as_ref().map_err(|e| e.to_string()), b))),
+            }
+        }};
+    }
+    same!(jiff::Zoned, to_zoned, "Zoned");
+    same!(jiff::Timestamp, to_timestamp, "Timestamp");
+    same!(jiff::civil::DateTime, to_datetime, "civil::DateTime");
+    same!(jiff::civil::Date, to_date, "civil::Date");
+    same!(jiff::civil::Time, to_time, "civil::Time");
+    None
+}
 
 fn run_strp(r: &Report, fmt: &[u8], input: &[u8], t: &mut Tally) {
+    run_strp_x(r, fmt, input, t, false)
+}
+
+fn run_strp_x(r: &Report, fmt: &[u8], input: &[u8], t: &mut Tally, others: bool) {
     let mut packed = Vec::with_capacity(fmt.len() + input.len() + 1);
     packed.extend_from_slice(fmt);
     packed.push(b'|');
     packed.extend_from_slice(input);
     let slot = enter(STRP, &packed);
-    let res = guard(|| match jiff::fmt::strtime::parse(fmt, input) {
-        Err(_) => Res::Err,
-        Ok(tm) => match chk_bdt(&tm, fmt) {
-            None => Res::Ok,
-            Some((c, d)) => Res::Bad(c, d),
-        },
+    let res = guard(|| {
+        let full = jiff::fmt::strtime::parse(fmt, input);
+        if others {
+            if let Some((c, d)) = strp_others(fmt, input, &full) {
+                return Res::Many(vec![(c, d)]);
+            }
+        }
+        match full {
+            Err(_) => Res::Err,
+            Ok(tm) => match chk_bdt(&tm, fmt) {
+                None => Res::Ok,
+                Some((c, d)) => Res::Bad(c, d),
+            },
+        }
     });
     slot.busy.store(false, Relaxed);
     let case = || format!("strtime::parse format=\"{}\" input=\"{}\"", escape(fmt), escape(input));
@@ -534,10 +803,15 @@ fn run_strp(r: &Report, fmt: &[u8], input: &[u8], t: &mut Tally) {
             t.bad += 1;
             r.viol("strptime", &format!("strtime::parse/{}", c), case(), d);
         }
-        Ok(Res::Many(_)) => unreachable!(),
+        Ok(Res::Many(v)) => {
+            t.bad += 1;
+            for (c, d) in v {
+                r.viol("strptime", &c, case(), d);
+            }
+        }
         Err(p) => {
             t.panics += 1;
-            let cls = if input.is_empty() { "[empty-input]" } else { "" };
+            let cls = if input.is_empty() { "[empty-input]" } else { century_class(fmt, input) };
             r.viol("strptime", &format!("strtime::parse/{}{}", panic_sig(&p), cls), case(), p);
         }
     }
@@ -623,8 +897,14 @@ fn sec_strptime(r: &Report) {
                 fmt.extend_from_slice(ds[d].0);
             }
             gen_inputs(seq, inputs);
+            // the other entry points (parse_prefix, T::strptime) ride along on
+            // the one- and two-directive formats
+            let others = seq.len() <= 2;
             for i in inputs.iter() {
-                run_strp(r, &fmt, i, t);
+                run_strp_x(r, &fmt, i, t, others);
+            }
+            if others {
+                r.count("strptime:cases_with_parse_prefix_and_wrappers", inputs.len() as u64);
             }
             r.count("strptime:formats", 1);
         };
@@ -649,8 +929,9 @@ fn sec_strptime(r: &Report) {
         (0..n).into_par_iter().for_each(|a| {
             let mut t = Tally::default();
             for i in &in1 {
-                run_strp(r, ds[a].0, i, &mut t);
+                run_strp_x(r, ds[a].0, i, &mut t, true);
             }
+            r.count("strptime:cases_with_parse_prefix_and_wrappers", in1.len() as u64);
             flush(&t);
         });
         pairs.par_iter().for_each(|&(a, b)| {
@@ -662,6 +943,143 @@ fn sec_strptime(r: &Report) {
             }
             flush(&t);
         });
+        // (d3) every directive x every flag x widths on both sides of every
+        // limit (digit-count limits 2/3/4/9/19, the u8 width limit 255) x
+        // digit strings on both sides of every integer limit, substituted into
+        // the directive's own input template
+        {
+            let flags: [&str; 6] = ["", "-", "_", "0", "^", "#"];
+            let widths: [&str; 16] = ["", "0", "1", "2", "3", "4", "9", "10", "18", "19", "20", "21", "99", "255", "256", "999"];
+            let digs: Vec<String> = {
+                let mut v: Vec<String> = ["0", "1", "9", "00", "07", "12", "31", "60", "99", "100", "366", "999", "2024", "9999", "10000", "99999", "999999999", "9999999999", "99999999999999999", "999999999999999999", "9223372036854775807", "9223372036854775808", "99999999999999999999"]
+                    .iter()
+                    .map(|x| x.to_string())
+                    .collect();
+                for n in [19usize, 20, 254, 255, 256] {
+                    v.push(format!("{}1", "0".repeat(n)));
+                }
+                v
+            };
+            // (directive, input templates; '#' is replaced by the digit string)
+            let specs: Vec<(&str, Vec<&str>)> = vec![
+                ("C", vec!["#", "-#", "+#"]),
+                ("d", vec!["#", " #"]),
+                ("e", vec!["#", " #"]),
+                ("f", vec!["#"]),
+                (".f", vec![".#", "#"]),
+                ("G", vec!["#", "-#", "+#"]),
+                ("g", vec!["#"]),
+                ("H", vec!["#"]),
+                ("k", vec!["#", " #"]),
+                ("I", vec!["#"]),
+                ("l", vec!["#", " #"]),
+                ("j", vec!["#"]),
+                ("M", vec!["#"]),
+                ("m", vec!["#"]),
+                ("S", vec!["#"]),
+                ("s", vec!["#", "-#", "+#"]),
+                ("U", vec!["#"]),
+                ("u", vec!["#"]),
+                ("V", vec!["#"]),
+                ("W", vec!["#"]),
+                ("w", vec!["#"]),
+                ("Y", vec!["#", "-#", "+#"]),
+                ("y", vec!["#"]),
+                ("D", vec!["#/15/24", "06/#/24", "06/15/#"]),
+                ("F", vec!["#-06-15", "-#-06-15", "2024-#-15", "2024-06-#"]),
+                ("R", vec!["#:00", "07:#"]),
+                ("T", vec!["#:00:00", "07:#:00", "07:00:#"]),
+                ("z", vec!["+#", "-#", "+05#", "+0530#"]),
+                (":z", vec!["+#:00", "+05:#", "+05:30:#", "-#"]),
+                ("Q", vec!["+#", "-#", "A#", "A/#"]),
+                (":Q", vec!["+#:00", "-05:#", "A#"]),
+                ("A", vec!["Monday#"]),
+                ("b", vec!["Jan#"]),
+                ("p", vec!["AM#"]),
+                ("n", vec![" #"]),
+                ("%", vec!["%#"]),
+                ("Z", vec!["#"]),
+            ];
+            let mut fmts: Vec<(usize, Vec<u8>)> = vec![];
+            for (si, (d, _)) in specs.iter().enumerate() {
+                for f in flags {
+                    for w in widths {
+                        fmts.push((si, format!("%{}{}{}", f, w, d).into_bytes()));
+                        if *d == ".f" {
+                            // the precision position of %.Nf
+                            fmts.push((si, format!("%{}.{}f", f, w).into_bytes()));
+                            fmts.push((si, format!("%{}{}.{}f", f, w, w).into_bytes()));
+                        }
+                    }
+                }
+            }
+            r.count("strptime:flag_width_formats", fmts.len() as u64);
+            fmts.par_iter().for_each(|(si, fmt)| {
+                let mut t = Tally::default();
+                let mut input: Vec<u8> = vec![];
+                for tpl in &specs[*si].1 {
+                    for d in &digs {
+                        input.clear();
+                        for b in tpl.bytes() {
+                            if b == b'#' {
+                                input.extend_from_slice(d.as_bytes());
+                            } else {
+                                input.push(b);
+                            }
+                        }
+                        run_strp_x(r, fmt, &input, &mut t, true);
+                    }
+                }
+                r.count("strptime:flag_width_cases", t.ok + t.err + t.bad + t.panics);
+                r.count("strptime:flag_width_ok", t.ok + t.bad);
+                flush(&t);
+            });
+            r.require(r.get_count("strptime:flag_width_ok") > 0, "flag/width formats accept some inputs");
+        }
+        // (d4) very long formats and inputs: a repeated unit on either side
+        // (the in-process watchdog bounds the time of each call)
+        {
+            let ns: &[usize] = if quick { &[255, 256, 65_536] } else { &[255, 256, 65_536, 1_000_000] };
+            // (format prefix, format unit, format suffix, input prefix, input unit, input suffix)
+            let shapes: [(&[u8], &[u8], &[u8], &[u8], &[u8], &[u8]); 14] = [
+                (b"%", b"9", b"d", b"", b"1", b""),
+                (b"%", b"0", b"1d", b"", b"0", b"1"),
+                (b"%0", b"0", b"255Y", b"", b"0", b"1"),
+                (b"", b"%%", b"", b"", b"%", b""),
+                (b"", b"%d", b"", b"", b"01", b""),
+                (b"", b" ", b"", b"", b" ", b""),
+                (b"", b"%n", b"x", b"", b" ", b"x"),
+                (b"", b"%t", b"", b"", b"", b""),
+                (b"%Q", b"", b"", b"A", b"/A", b""),
+                (b"%Q", b"", b"", b"A", b"a", b""),
+                (b"%255Y", b"", b"", b"", b"0", b"1"),
+                (b"%s", b"", b"", b"-", b"0", b"1"),
+                (b"", b"%.f", b"", b"", b".1", b""),
+                (b"", b"\xFF", b"", b"", b"\xFF", b""),
+            ];
+            let work: Vec<(usize, usize)> = (0..shapes.len()).flat_map(|s| ns.iter().map(move |&n| (s, n))).collect();
+            work.par_iter().for_each(|&(si, n)| {
+                let sh = shapes[si];
+                let build = |p: &[u8], u: &[u8], x: &[u8]| -> Vec<u8> {
+                    let mut v = p.to_vec();
+                    if !u.is_empty() {
+                        while v.len() + u.len() + x.len() <= n.max(p.len() + u.len() + x.len()) {
+                            v.extend_from_slice(u);
+                        }
+                    }
+                    v.extend_from_slice(x);
+                    v
+                };
+                let fmt = build(sh.0, sh.1, sh.2);
+                let inp = build(sh.3, sh.4, sh.5);
+                let mut t = Tally::default();
+                run_strp_x(r, &fmt, &inp, &mut t, true);
+                run_strp_x(r, &fmt, b"", &mut t, true);
+                run_strp_x(r, b"%Y", &inp, &mut t, true);
+                r.count("strptime:long_cases", 3);
+                flush(&t);
+            });
+        }
         // (d2) all short raw format strings x a few inputs
         let fmts = all_strings(A_FMT, if quick { 4 } else { 5 });
         let ins: [&[u8]; 7] = [b"", b"2024", b"5", b"+05:30", b"Jan", b"\xFF", b".5"];
@@ -675,6 +1093,186 @@ fn sec_strptime(r: &Report) {
             flush(&t);
         });
         r.count("strptime:raw_formats", fmts.len() as u64);
+    });
+}
+
+// ---------------------------------------------------------------------------
+// (d') strftime: arbitrary format strings on boundary values never panic, the
+// output stays proportional to the format, and the documented equivalent
+// entry points agree
+// ---------------------------------------------------------------------------
+
+struct FmtValue {
+    name: String,
+    tm: jiff::fmt::strtime::BrokenDownTime,
+    /// `strtime::format(fmt, value)` for the typed values
+    free: Option<Box<dyn Fn(&[u8]) -> Result<String, ()> + Sync + Send>>,
+    /// the typed value's own `strftime`, when the value is one of the five types
+    disp: Option<Box<dyn Fn(&[u8]) -> Result<String, ()> + Sync + Send>>,
+}
+
+fn fmt_values() -> Vec<FmtValue> {
+    use jiff::fmt::strtime::BrokenDownTime;
+    use jiff::tz::{Offset, TimeZone};
+    use jiff::{Timestamp, Zoned};
+    use std::fmt::Write as _;
+    let ts = |ns: i128| Timestamp::from_nanosecond(ns).unwrap();
+    let fixed = |s: i32| TimeZone::fixed(Offset::from_seconds(s).unwrap());
+    let min = Timestamp::MIN.as_nanosecond();
+    let max = Timestamp::MAX.as_nanosecond();
+    let zs: Vec<Zoned> = vec![
+        ts(min).to_zoned(TimeZone::UTC),
+        ts(max).to_zoned(TimeZone::UTC),
+        ts(min).to_zoned(fixed(-93_599)),
+        ts(max).to_zoned(fixed(93_599)),
+        ts(min + 1).to_zoned(TimeZone::UTC),
+        ts(-1).to_zoned(TimeZone::get("America/New_York").unwrap()),
+        ts(0).to_zoned(TimeZone::posix("<+0545>-5:45").unwrap()),
+        ts(0).to_zoned(fixed(-1)),
+        ts(1_718_434_800_123_456_789).to_zoned(TimeZone::get("America/New_York").unwrap()),
+        "0000-01-01T00:00:00[UTC]".parse().unwrap(),
+        "-000001-12-31T23:59:59.999999999[UTC]".parse().unwrap(),
+        "1968-12-30T12:00:00[UTC]".parse().unwrap(),
+        "2069-01-01T00:00:00.5[Australia/Lord_Howe]".parse().unwrap(),
+        "1919-03-01T00:00:00-00:44:30[Africa/Monrovia]".parse().unwrap(),
+    ];
+    type Disp = Option<Box<dyn Fn(&[u8]) -> Result<String, ()> + Sync + Send>>;
+    macro_rules! disp {
+        ($v:expr) => {{
+            let v = $v;
+            let d: Disp = Some(Box::new(move |fmt: &[u8]| {
+                let mut s = String::new();
+                write!(s, "{}", v.strftime(fmt)).map(|_| s).map_err(|_| ())
+            }));
+            d
+        }};
+    }
+    macro_rules! free {
+        ($v:expr) => {{
+            let v = $v;
+            let d: Disp = Some(Box::new(move |fmt: &[u8]| jiff::fmt::strtime::format(fmt, v.clone()).map_err(|_| ())));
+            d
+        }};
+    }
+    let mut out = vec![];
+    for z in &zs {
+        let zc = z.clone();
+        let zfree: Disp = Some(Box::new(move |fmt: &[u8]| jiff::fmt::strtime::format(fmt, &zc).map_err(|_| ())));
+        out.push(FmtValue { name: format!("Zoned {}", z), tm: BrokenDownTime::from(z), free: zfree, disp: disp!(z.clone()) });
+        let t = z.timestamp();
+        out.push(FmtValue { name: format!("Timestamp {}", t), tm: BrokenDownTime::from(t), free: free!(t), disp: disp!(t) });
+        let dt = z.datetime();
+        out.push(FmtValue { name: format!("civil::DateTime {}", dt), tm: BrokenDownTime::from(dt), free: free!(dt), disp: disp!(dt) });
+        out.push(FmtValue { name: format!("civil::Date {}", dt.date()), tm: BrokenDownTime::from(dt.date()), free: free!(dt.date()), disp: disp!(dt.date()) });
+        out.push(FmtValue { name: format!("civil::Time {}", dt.time()), tm: BrokenDownTime::from(dt.time()), free: free!(dt.time()), disp: disp!(dt.time()) });
+        out.push(FmtValue { name: format!("civil::ISOWeekDate {:?}", dt.date().iso_week_date()), tm: BrokenDownTime::from(dt.date().iso_week_date()), free: free!(dt.date().iso_week_date()), disp: None });
+    }
+    // partially filled values, as strptime leaves them
+    for (f, i) in [("%H", "23"), ("%Y %j", "2024 366"), ("%Y %U %a", "2024 00 Mon"), ("%G %V %u", "-9999 01 1"), ("%s", "-377705023201"), ("%z", "-255959"), ("%:z", "+25:59:59"), ("%Q", "America/New_York"), ("%I %p", "12 AM"), ("%C", "-99"), ("%y", "69"), ("%.f", ".000000001")] {
+        if let Ok(tm) = jiff::fmt::strtime::parse(f, i) {
+            out.push(FmtValue { name: format!("strtime::parse({:?}, {:?})", f, i), tm, free: None, disp: None });
+        }
+    }
+    out.push(FmtValue { name: "BrokenDownTime::default()".into(), tm: BrokenDownTime::default(), free: None, disp: None });
+    out
+}
+
+fn sec_strftime(r: &Report) {
+    r.section("strftime", || {
+        set_section("strftime");
+        let vals = fmt_values();
+        r.count("strftime:values", vals.len() as u64);
+        // formats: every directive x flag x width; every directive of the
+        // strptime table alone and in pairs; all short raw strings
+        let mut fmts: Vec<Vec<u8>> = vec![];
+        let flags: [&str; 6] = ["", "-", "_", "0", "^", "#"];
+        let widths: [&str; 16] = ["", "0", "1", "2", "3", "4", "9", "10", "18", "19", "20", "21", "99", "255", "256", "999"];
+        for d in "%AaBbCcDdeFfGgHhIjklMmnPpQRSsTtUuVWwYyZz".chars() {
+            for f in flags {
+                for w in widths {
+                    fmts.push(format!("%{}{}{}", f, w, d).into_bytes());
+                }
+            }
+        }
+        for f in flags {
+            for w in widths {
+                for d in [":z", ":Q", "::z", ".f"] {
+                    fmts.push(format!("%{}{}{}", f, w, d).into_bytes());
+                }
+                fmts.push(format!("%{}.{}f", f, w).into_bytes());
+                fmts.push(format!("%{}{}.{}f", f, w, w).into_bytes());
+            }
+        }
+        let ds = directives();
+        for a in &ds {
+            fmts.push(a.0.to_vec());
+            for b in &ds {
+                let mut x = a.0.to_vec();
+                x.extend_from_slice(b.0);
+                fmts.push(x);
+            }
+        }
+        const A_FMT: &[u8] = b"%-_0^#19:.YdfzQ\xFF";
+        fmts.extend(all_strings(A_FMT, if r.quick() { 3 } else { 4 }));
+        fmts.sort();
+        fmts.dedup();
+        r.count("strftime:formats", fmts.len() as u64);
+        let (nok, nerr) = (AtomicU64::new(0), AtomicU64::new(0));
+        fmts.par_chunks(64).for_each(|chunk| {
+            let (mut ok, mut err) = (0u64, 0u64);
+            for fmt in chunk {
+                for v in &vals {
+                    let mut packed = fmt.clone();
+                    packed.push(b'|');
+                    packed.extend_from_slice(v.name.as_bytes());
+                    let slot = enter(STRF, &packed);
+                    let res = guard(|| {
+                        let a = v.tm.to_string(fmt).map_err(|_| ());
+                        let mut sink = String::new();
+                        let b = v.tm.format(fmt, &mut sink).map(|_| sink).map_err(|_| ());
+                        let c = v.free.as_ref().map(|f| f(fmt));
+                        let d = v.disp.as_ref().map(|f| f(fmt));
+                        (a, b, c, d)
+                    });
+                    slot.busy.store(false, Relaxed);
+                    let case = || format!("strtime::format format=\"{}\" value={}", escape(fmt), v.name);
+                    match res {
+                        Err(p) => r.viol("strftime", &format!("strtime::format/{}", panic_sig(&p)), case(), p),
+                        Ok((a, b, c, d)) => {
+                            if a != b || c.as_ref().map(|c| *c != a).unwrap_or(false) || d.as_ref().map(|d| *d != a).unwrap_or(false) {
+                                r.viol("strftime", "strtime::format/entry-points-differ", case(), format!("to_string {:?}; format(W) {:?}; strtime::format {:?}; T::strftime Display {:?}", a, b, c, d));
+                            }
+                            match a {
+                                Ok(text) => {
+                                    ok += 1;
+                                    // linear bound: a directive is at least 2 bytes of format and writes at
+                                    // most three numbers of at most 255 bytes each plus separators
+                                    // (%255T), i.e. fewer than 256 bytes of output per byte of format
+                                    if text.len() > 256 * fmt.len() + 64 {
+                                        r.viol("strftime", "strtime::format/work-not-proportional(output)", case(), format!("{} bytes of output for {} bytes of format", text.len(), fmt.len()));
+                                    }
+                                    // what it prints must not make the parser panic
+                                    if let Err(p) = guard(|| jiff::fmt::strtime::parse(fmt, &text).is_ok()) {
+                                        r.viol("strftime", &format!("strtime::parse(printed)/{}", panic_sig(&p)), case(), p);
+                                    }
+                                }
+                                Err(()) => err += 1,
+                            }
+                        }
+                    }
+                }
+            }
+            nok.fetch_add(ok, Relaxed);
+            nerr.fetch_add(err, Relaxed);
+        });
+        let (ok, err) = (nok.load(Relaxed), nerr.load(Relaxed));
+        r.add_states(ok + err);
+        r.add_transitions(ok + err);
+        r.add_validated(ok);
+        r.count("strftime:cases", ok + err);
+        r.count("strftime:ok", ok);
+        r.count("strftime:err", err);
+        r.require(ok > 0 && err > 0, "strftime saw both Ok and Err outcomes");
     });
 }
 
@@ -760,14 +1358,17 @@ fn digit_fields(s: &[u8]) -> Vec<(usize, usize)> {
 
 fn blow_space(ps: &[Parser], quick: bool) -> Vec<Blow> {
     let mut v = vec![];
-    let runs: &[usize] = &[19, 20, 39, 40, 1000, 1_000_000];
+    // 9/10: i32 and u32 overflow; 18/19/20: i64 and u64; 38/39/40: i128
+    let runs: &[usize] = &[9, 10, 11, 18, 19, 20, 21, 38, 39, 40, 1000, 1_000_000];
     for (pi, p) in ps.iter().enumerate() {
+        let light = p.level != text::Level::Full;
         for (si, s) in p.seeds.iter().enumerate() {
             let nf = digit_fields(s).len();
             for field in 0..nf {
                 for &n in runs {
-                    // quick: the 10^6 runs only on the first 6 seeds of each parser
-                    if quick && n == 1_000_000 && si >= 6 {
+                    // quick: the 10^6 runs only on the first 6 seeds of each
+                    // parser; rows of level Light never take them
+                    if n == 1_000_000 && (light || (quick && si >= 6)) {
                         continue;
                     }
                     for fill in [b'9', b'0'] {
@@ -778,9 +1379,15 @@ fn blow_space(ps: &[Parser], quick: bool) -> Vec<Blow> {
         }
         for ui in 0..p.units.len() {
             for total in [65_536usize, 1_000_000] {
+                if light && total > 65_536 {
+                    continue;
+                }
                 v.push(Blow::Unit { pi, ui, total });
             }
             for count in COUNTS {
+                if light && *count > 600 {
+                    continue;
+                }
                 v.push(Blow::Count { pi, ui, count: *count, close: b"" });
                 if let Some(close) = closer(p.units[ui].1) {
                     v.push(Blow::Count { pi, ui, count: *count, close });
@@ -791,8 +1398,11 @@ fn blow_space(ps: &[Parser], quick: bool) -> Vec<Blow> {
     v
 }
 
-/// counts straddling 2^7, 2^8, 2^15, 2^16 (and a couple of small ones)
-const COUNTS: &[usize] = &[1, 2, 3, 126, 127, 128, 129, 254, 255, 256, 257, 258, 511, 512, 513, 32_767, 32_768, 32_769, 65_534, 65_535, 65_536, 65_537];
+/// every count up to 40 (fixed-capacity buffers: 9- and 19-digit accumulators,
+/// the 30-byte abbreviation), then counts straddling 2^6, 2^7, 2^8, 2^9, 2^15, 2^16
+const COUNTS: &[usize] = &[
+    1, 2, 3, 4, 5, 6, 7, 8, 9, 10, 11, 12, 13, 14, 15, 16, 17, 18, 19, 20, 21, 22, 23, 24, 25, 26, 27, 28, 29, 30, 31, 32, 33, 34, 35, 36, 37, 38, 39, 40, 63, 64, 65, 126, 127, 128, 129, 254, 255, 256, 257, 258, 511, 512, 513, 32_767, 32_768, 32_769, 65_534, 65_535, 65_536, 65_537,
+];
 
 /// the closing delimiter for a repeat unit that is an opening delimiter
 fn closer(unit: &[u8]) -> Option<&'static [u8]> {
@@ -864,8 +1474,8 @@ fn time_limit(len: usize) -> f64 {
         60.0
     }
 }
-fn alloc_limit(len: usize) -> u64 {
-    64 * len as u64 + (1 << 20)
+fn alloc_limit(len: usize, calls: u64) -> u64 {
+    (64 * len as u64 + (1 << 20)) * calls
 }
 
 struct ChildOut {
@@ -959,11 +1569,15 @@ fn child_main(args: &[String]) -> ! {
                 if dt > time_limit(bytes.len()) {
                     o.viol("TimeZone::tzif/work-not-proportional(time)", &sp.describe(i), &format!("{} bytes took {:.2}s", bytes.len(), dt));
                 }
-                if da > alloc_limit(bytes.len()) {
+                if da > alloc_limit(bytes.len(), 1) {
                     o.viol("TimeZone::tzif/work-not-proportional(allocation)", &sp.describe(i), &format!("{} bytes of input, {} bytes allocated", bytes.len(), da));
                 }
                 match res {
-                    Err(p) => o.viol(&format!("TimeZone::tzif/{}", panic_sig(&p)), &sp.describe(i), &p),
+                    Err(p) => {
+                        let footer = tzmut::footer_offset(&bytes).map(|f| &bytes[(f + 1).min(bytes.len())..]).unwrap_or(&[]);
+                        let footer = footer.strip_suffix(b"\n").unwrap_or(footer);
+                        o.viol(&format!("TimeZone::tzif/{}{}", panic_sig(&p), text::posix_abbrev_class(footer)), &sp.describe(i), &p)
+                    }
                     Ok(Err(_)) => bump("tzif:rejected", 1),
                     Ok(Ok(tz)) => {
                         bump("tzif:accepted", 1);
@@ -1093,11 +1707,11 @@ fn child_main(args: &[String]) -> ! {
                 if dt > time_limit(bytes.len()) {
                     o.viol(&format!("{}/work-not-proportional(time)", p.name), &desc, &format!("{} bytes took {:.2}s", bytes.len(), dt));
                 }
-                if da > alloc_limit(bytes.len()) {
+                if da > alloc_limit(bytes.len(), p.calls) {
                     o.viol(&format!("{}/work-not-proportional(allocation)", p.name), &desc, &format!("{} bytes of input, {} bytes allocated", bytes.len(), da));
                 }
                 match res {
-                    Err(pn) => o.viol(&format!("{}/{}", p.name, panic_sig(&pn)), &desc, &pn),
+                    Err(pn) => o.viol(&format!("{}/{}{}", p.name, panic_sig(&pn), text::panic_class(&bytes)), &desc, &pn),
                     Ok(Res::Err) => bump("blowup:err", 1),
                     Ok(Res::Ok) => bump("blowup:ok", 1),
                     Ok(Res::Bad(c, d)) => {
@@ -1266,8 +1880,9 @@ fn main() {
     let r = Report::from_args("C17");
     let ps = text::parsers();
     let mut names: Vec<String> = ps.iter().map(|p| p.name.to_string()).collect();
-    names.resize(STRP + 1, String::new());
+    names.resize(STRF + 1, String::new());
     names[STRP] = "strtime::parse(format|input)".into();
+    names[STRF] = "strtime::format(format|value)".into();
     let _ = NAMES.set(names);
     set_section("");
     start_watchdog(&r);
@@ -1277,7 +1892,10 @@ fn main() {
     sec_short(&r, &ps);
     sec_mutate1(&r, &ps);
     sec_mutate2(&r, &ps);
+    sec_anchored(&r, &ps);
+    sec_fieldvals(&r, &ps);
     sec_strptime(&r);
+    sec_strftime(&r);
 
     let maxima: std::sync::Mutex<BTreeMap<String, f64>> = std::sync::Mutex::new(BTreeMap::new());
     r.section("blowup", || {
@@ -1317,14 +1935,14 @@ fn main() {
     }
 
     if r.only_section.is_none() {
-        for s in ["short", "mutate1", "mutate2", "strptime"] {
+        for s in ["short", "mutate1", "mutate2", "anchored", "fieldvals", "strptime"] {
             r.require(r.get_count(&format!("{}:ok", s)) > 0 && r.get_count(&format!("{}:err", s)) > 0, &format!("section {} saw both Ok and Err outcomes", s));
         }
         for p in &ps {
             r.require(r.get_count(&format!("mutate1:{}:ok", p.name)) > 0, &format!("{} accepted some mutated seeds", p.name));
         }
     }
-    for k in ["short:ok", "short:err", "mutate1:ok", "mutate1:err", "mutate2:ok", "mutate2:err", "strptime:ok", "strptime:err", "blowup:ok", "blowup:err", "tzif:accepted", "tzif:rejected", "concat:opened", "concat:rejected", "concat:get_ok", "concat:get_err"] {
+    for k in ["short:ok", "short:err", "mutate1:ok", "mutate1:err", "mutate2:ok", "mutate2:err", "anchored:ok", "anchored:err", "fieldvals:ok", "fieldvals:err", "strptime:ok", "strptime:err", "strftime:ok", "strftime:err", "blowup:ok", "blowup:err", "tzif:accepted", "tzif:rejected", "concat:opened", "concat:rejected", "concat:get_ok", "concat:get_err"] {
         r.outcome(k, r.get_count(k));
     }
     r.finish();
